@@ -182,7 +182,9 @@ CLAIMS = {
              "(sum mod m, check digit); 08, 09, 16, 17, 21, 23, 24, 25, 26, 61, 63, 68, 76, 88, 91, 99 with "
              "their case splits), and live_de_total: no live method ever raises a foreign exception on a "
              "ten-digit account. Dispatch theorem (first registry entry names the method; unlisted bank / unimplemented "
-             "method accepted), instance facts (39 registered methods, account field = bban[8:18], no DE:default) "
+             "method accepted), instance facts (39 registered methods, account field = bban[8:18], no DE:default; "
+             "`live_de_methods_agree`: all entries listed for one German bank code name the same method, so by "
+             "`first_entry_names_the_method` the first entry's method is THE method of the bank) "
              "kernel-checked on regenerated data. At the IBAN level (`german_iban_level`, `live_german_iban`, worked "
              "out for method 00 in `live_german_iban_00`): a German text valid without national validation whose "
              "bank's first registry entry names a registered method is accepted with national validation exactly "
